@@ -89,3 +89,28 @@ Theorem C33_accept_requires_authority_outside_known :
       (~ recreates gs o -> authorised_strict gs o /\ valid_in gs o).
 Proof. exact (fun y y' o => accept_requires_authority_outside_known y o y'). Qed.
 Print Assumptions C33_accept_requires_authority_outside_known.
+
+(** The decision on an operation depends on the states of its *declared* dependencies only (and
+    on whether its id is already known): two replicas that store the same states for those
+    operations decide alike, whatever else they have accepted. *)
+Theorem C33_decision_depends_only_on_dependencies_partial :
+  forall (y1 y2 : Replica) (o : Op),
+    (forall d, In d (op_deps o) -> alookup d (states y1) = alookup d (states y2)) ->
+    memN (op_id o) (map op_id (ops y1)) = memN (op_id o) (map op_id (ops y2)) ->
+    snd (process y1 o) = snd (process y2 o).
+Proof. exact decision_depends_only_on_dependencies. Qed.
+Print Assumptions C33_decision_depends_only_on_dependencies_partial.
+
+(** Operations processed in between (concurrent branches: none of them a declared dependency of
+    [o], none of them [o] itself) neither change the decision on [o] nor the state at its declared
+    dependencies.  In particular authority gained only in a branch the operation does not declare
+    (author added/promoted there) does not make it acceptable: by
+    [C33_accept_requires_authority_partial] the author must be an active manager in
+    [state_at y (op_deps o)], the state before those branches were merged in. *)
+Theorem C33_concurrent_branches_irrelevant_partial :
+  forall (l : list Op) (y : Replica) (o : Op),
+    (forall o', In o' l -> ~ In (op_id o') (op_deps o) /\ op_id o <> op_id o') ->
+    snd (process (fst (run y l)) o) = snd (process y o)
+    /\ state_at (fst (run y l)) (op_deps o) = state_at y (op_deps o).
+Proof. exact concurrent_run_irrelevant. Qed.
+Print Assumptions C33_concurrent_branches_irrelevant_partial.
